@@ -4,6 +4,8 @@ import Mathlib.Analysis.Convex.Deriv
 import Mathlib.MeasureTheory.Integral.IntervalIntegral.Basic
 import Mathlib.Analysis.SpecialFunctions.Integrals.Basic
 import Mathlib.Analysis.SpecialFunctions.Log.Deriv
+import Mathlib.Topology.UniformSpace.HeineCantor
+import Mathlib.Topology.MetricSpace.Pseudo.Defs
 
 /-!
 Helper lemmas for the grid-refinement theorems of C14 (`Proofs/Props/C14Refine.lean`):
@@ -858,5 +860,234 @@ theorem linspace_chain_ge (a b : ℝ) (hab : b ≤ a) (n : ℕ) : (linspace a b 
   ugrid_chain_ge _ _ (div_nonpos_of_nonpos_of_nonneg (by linarith) (Nat.cast_nonneg n)) n
 theorem linspace_chain_le (a b : ℝ) (hab : a ≤ b) (n : ℕ) : (linspace a b n).IsChain (· ≤ ·) :=
   ugrid_chain_le _ _ (div_nonneg (by linarith) (Nat.cast_nonneg n)) n
+
+
+/-! ### generic two-point quadrature sums and Riemann–Stieltjes type convergence -/
+
+/-- `∑ t(x_i, x_{i+1})` over consecutive grid points -/
+noncomputable def pairSum (t : ℝ → ℝ → ℝ) : List ℝ → ℝ
+  | x0 :: x1 :: xs => t x0 x1 + pairSum t (x1 :: xs)
+  | _ => 0
+
+@[simp] theorem pairSum_nil (t : ℝ → ℝ → ℝ) : pairSum t [] = 0 := by simp [pairSum]
+@[simp] theorem pairSum_single (t : ℝ → ℝ → ℝ) (a : ℝ) : pairSum t [a] = 0 := by simp [pairSum]
+@[simp] theorem pairSum_cons_cons (t : ℝ → ℝ → ℝ) (a b : ℝ) (l : List ℝ) :
+    pairSum t (a :: b :: l) = t a b + pairSum t (b :: l) := by simp [pairSum]
+
+/-- if every term approximates the integral of `φ` over its segment up to `ε·|segment|`
+(for segments no longer than `δ`), the sum approximates the integral up to `ε·∑|segments|` -/
+theorem pairSum_err_le {S : Set ℝ} (hS : Convex ℝ S) {t : ℝ → ℝ → ℝ} {φ : ℝ → ℝ}
+    (hφ : ContinuousOn φ S) {ε δ : ℝ}
+    (hseg : ∀ u ∈ S, ∀ v ∈ S, |v - u| ≤ δ → |t u v - ∫ s in u..v, φ s| ≤ ε * |v - u|) :
+    ∀ (x : List ℝ) (hne : x ≠ []), (∀ s ∈ x, s ∈ S) → mesh x ≤ δ →
+    |pairSum t x - ∫ s in (x.head hne)..(x.getLast hne), φ s| ≤ ε * pathLen x := by
+  intro x
+  induction x with
+  | nil => intro hne; exact absurd rfl hne
+  | cons x0 xs ih =>
+    intro hne hmem hδ
+    rcases xs with _ | ⟨x1, xs'⟩
+    · simp
+    · have hx0 : x0 ∈ S := hmem x0 (by simp)
+      have hx1 : x1 ∈ S := hmem x1 (by simp)
+      have hmem' : ∀ s ∈ x1 :: xs', s ∈ S := fun s hs => hmem s (List.mem_cons_of_mem _ hs)
+      have hlast : (x1 :: xs').getLast (by simp) ∈ S := hmem' _ (List.getLast_mem _)
+      rw [mesh_cons_cons] at hδ
+      have hδ0 : |x1 - x0| ≤ δ := le_trans (le_max_left _ _) hδ
+      have hδ' : mesh (x1 :: xs') ≤ δ := le_trans (le_max_right _ _) hδ
+      have IH := ih (by simp) hmem' hδ'
+      have Sg := hseg x0 hx0 x1 hx1 hδ0
+      have i01 := intervalIntegrable_of_mem hS hφ hx0 hx1
+      have i1l := intervalIntegrable_of_mem hS hφ hx1 hlast
+      simp only [List.head_cons, List.getLast_cons_cons, pairSum_cons_cons,
+        pathLen_cons_cons] at IH ⊢
+      rw [← intervalIntegral.integral_add_adjacent_intervals i01 i1l]
+      calc _ = |(t x0 x1 - ∫ s in x0..x1, φ s)
+              + (pairSum t (x1 :: xs') - ∫ s in x1..(x1 :: xs').getLast (by simp), φ s)| := by
+            congr 1; ring
+        _ ≤ _ := abs_add_le _ _
+        _ ≤ ε * |x1 - x0| + ε * pathLen (x1 :: xs') := add_le_add Sg IH
+        _ = _ := by ring
+
+/-- one Riemann–Stieltjes segment: `Z v - Z u = ∫_u^v ζ`, `c` within `ε` of `F` on the segment -/
+theorem rs_seg_le {S : Set ℝ} (hS : Convex ℝ S) {F ζ Z : ℝ → ℝ} (hF : ContinuousOn F S)
+    (hζ : ContinuousOn ζ S) {L : ℝ} (hL : ∀ s ∈ S, |ζ s| ≤ L)
+    (hZ : ∀ u ∈ S, ∀ v ∈ S, Z v - Z u = ∫ s in u..v, ζ s) {u v c ε : ℝ} (hu : u ∈ S) (hv : v ∈ S)
+    (hc : ∀ s ∈ Set.uIcc u v, |c - F s| ≤ ε) :
+    |(Z v - Z u) * c - ∫ s in u..v, F s * ζ s| ≤ ε * L * |v - u| := by
+  have hsub : Set.uIcc u v ⊆ S := hS.ordConnected.uIcc_subset hu hv
+  have iζ : IntervalIntegrable ζ volume u v := intervalIntegrable_of_mem hS hζ hu hv
+  have iFζ : IntervalIntegrable (fun s => F s * ζ s) volume u v :=
+    intervalIntegrable_of_mem hS (hF.mul hζ) hu hv
+  have icζ : IntervalIntegrable (fun s => c * ζ s) volume u v := iζ.const_mul c
+  have e : (Z v - Z u) * c - ∫ s in u..v, F s * ζ s = ∫ s in u..v, (c - F s) * ζ s := by
+    rw [hZ u hu v hv, mul_comm, ← intervalIntegral.integral_const_mul,
+      ← intervalIntegral.integral_sub icζ iFζ]
+    congr 1; funext s; ring
+  rw [e]
+  have := intervalIntegral.norm_integral_le_of_norm_le_const (a := u) (b := v)
+    (f := fun s => (c - F s) * ζ s) (C := ε * L) (by
+      intro s hs
+      have hs' : s ∈ Set.uIcc u v := Set.uIoc_subset_uIcc hs
+      rw [Real.norm_eq_abs, abs_mul]
+      exact mul_le_mul (hc s hs') (hL s (hsub hs')) (abs_nonneg _)
+        (le_trans (abs_nonneg _) (hc s hs')))
+  simpa [Real.norm_eq_abs] using this
+
+/-- uniform continuity on `[a, b]` in `ε`–`δ` form with non-strict inequalities -/
+theorem uc_Icc {a b : ℝ} {f : ℝ → ℝ} (hf : ContinuousOn f (Set.Icc a b)) :
+    ∀ ε > 0, ∃ δ > 0, ∀ u ∈ Set.Icc a b, ∀ v ∈ Set.Icc a b, |v - u| ≤ δ → |f v - f u| ≤ ε := by
+  intro ε hε
+  have huc := isCompact_Icc.uniformContinuousOn_of_continuous hf
+  obtain ⟨δ0, hδ0, h⟩ := Metric.uniformContinuousOn_iff.mp huc ε hε
+  refine ⟨δ0 / 2, by positivity, fun u hu v hv huv => ?_⟩
+  have := h v hv u hu (by rw [Real.dist_eq]; linarith)
+  rw [Real.dist_eq] at this
+  exact this.le
+
+/-- the mean of the two end values is uniformly close to `f` on short segments -/
+theorem mean_consistent {a b : ℝ} {f : ℝ → ℝ} (hf : ContinuousOn f (Set.Icc a b)) :
+    ∀ ε > 0, ∃ δ > 0, ∀ u ∈ Set.Icc a b, ∀ v ∈ Set.Icc a b, |v - u| ≤ δ →
+      ∀ s ∈ Set.uIcc u v, |(f u + f v) / 2 - f s| ≤ ε := by
+  intro ε hε
+  obtain ⟨δ, hδ, h⟩ := uc_Icc hf ε hε
+  refine ⟨δ, hδ, fun u hu v hv huv s hs => ?_⟩
+  have hsI : s ∈ Set.Icc a b := (convex_Icc a b).ordConnected.uIcc_subset hu hv hs
+  have h1 : |s - u| ≤ |v - u| := Set.abs_sub_left_of_mem_uIcc hs
+  have h2 : |v - s| ≤ |v - u| := Set.abs_sub_right_of_mem_uIcc hs
+  have e1 := h s hsI u hu (by rw [abs_sub_comm]; linarith)
+  have e2 := h s hsI v hv (by linarith)
+  have : (f u + f v) / 2 - f s = ((f u - f s) + (f v - f s)) / 2 := by ring
+  rw [this, abs_div, abs_two, div_le_iff₀ two_pos]
+  exact (abs_add_le _ _).trans (by linarith)
+
+/-- `-1/(mean(ρ_u, ρ_v)·g)` is uniformly close to `-1/(ρ·g)` on short segments (`ρ > 0` continuous) -/
+theorem invmean_consistent {a b g : ℝ} {ρ : ℝ → ℝ} (hg : 0 < g)
+    (hρ : ContinuousOn ρ (Set.Icc a b)) (hpos : ∀ s ∈ Set.Icc a b, 0 < ρ s) :
+    ∀ ε > 0, ∃ δ > 0, ∀ u ∈ Set.Icc a b, ∀ v ∈ Set.Icc a b, |v - u| ≤ δ →
+      ∀ s ∈ Set.uIcc u v, |-1 / ((ρ u + ρ v) / 2 * g) - -1 / (ρ s * g)| ≤ ε := by
+  intro ε hε
+  rcases (Set.Icc a b).eq_empty_or_nonempty with hE | hN
+  · exact ⟨1, one_pos, fun u hu => by simp [hE] at hu⟩
+  obtain ⟨x0, hx0, hmin⟩ := isCompact_Icc.exists_isMinOn hN hρ
+  have hc : 0 < ρ x0 := hpos x0 hx0
+  have hmin' : ∀ s ∈ Set.Icc a b, ρ x0 ≤ ρ s := fun s hs => hmin hs
+  obtain ⟨δ, hδ, h⟩ := mean_consistent hρ (ε * (ρ x0 ^ 2 * g)) (by positivity)
+  refine ⟨δ, hδ, fun u hu v hv huv s hs => ?_⟩
+  have hsI : s ∈ Set.Icc a b := (convex_Icc a b).ordConnected.uIcc_subset hu hv hs
+  have hm := h u hu v hv huv s hs
+  have hM : ρ x0 ≤ (ρ u + ρ v) / 2 := by linarith [hmin' u hu, hmin' v hv]
+  have hs0 : ρ x0 ≤ ρ s := hmin' s hsI
+  have hMpos : 0 < (ρ u + ρ v) / 2 := lt_of_lt_of_le hc hM
+  have hspos : 0 < ρ s := lt_of_lt_of_le hc hs0
+  have e : -1 / ((ρ u + ρ v) / 2 * g) - -1 / (ρ s * g)
+      = ((ρ u + ρ v) / 2 - ρ s) / ((ρ u + ρ v) / 2 * ρ s * g) := by
+    have aux : ∀ M r : ℝ, 0 < M → 0 < r → -1 / (M * g) - -1 / (r * g) = (M - r) / (M * r * g) := by
+      intro M r hM hr; field_simp; ring
+    exact aux _ _ hMpos hspos
+  rw [e, abs_div, abs_of_pos (by positivity : 0 < (ρ u + ρ v) / 2 * ρ s * g), div_le_iff₀ (by positivity)]
+  have hden : ρ x0 ^ 2 * g ≤ (ρ u + ρ v) / 2 * ρ s * g := by
+    have : ρ x0 * ρ x0 ≤ (ρ u + ρ v) / 2 * ρ s := mul_le_mul hM hs0 hc.le hMpos.le
+    nlinarith
+  calc _ ≤ ε * (ρ x0 ^ 2 * g) := hm
+    _ ≤ _ := mul_le_mul_of_nonneg_left hden hε.le
+
+/-- **Riemann–Stieltjes convergence of two-point sums.**  `Z` has increments `∫ ζ` (`ζ` continuous
+on `[a,b]`), `F` is continuous, and the sampling rule `m(u, v)` is uniformly consistent with `F`
+on short segments.  Along monotone grids in `[a,b]` from `α` to `β` with mesh → 0,
+`∑ (Z x_{i+1} - Z x_i)·m(x_i, x_{i+1}) → ∫_α^β F·ζ`. -/
+theorem rs_tendsto {ι : Type*} {l : Filter ι} {a b : ℝ} {F ζ Z : ℝ → ℝ} {m : ℝ → ℝ → ℝ}
+    (hF : ContinuousOn F (Set.Icc a b)) (hζ : ContinuousOn ζ (Set.Icc a b))
+    (hZ : ∀ u ∈ Set.Icc a b, ∀ v ∈ Set.Icc a b, Z v - Z u = ∫ s in u..v, ζ s)
+    (hm : ∀ ε > 0, ∃ δ > 0, ∀ u ∈ Set.Icc a b, ∀ v ∈ Set.Icc a b, |v - u| ≤ δ →
+      ∀ s ∈ Set.uIcc u v, |m u v - F s| ≤ ε)
+    (X : ι → List ℝ) (α β : ℝ) (hne : ∀ i, X i ≠ []) (hmem : ∀ i, ∀ s ∈ X i, s ∈ Set.Icc a b)
+    (hmono : ∀ i, (X i).IsChain (· ≤ ·) ∨ (X i).IsChain (· ≥ ·))
+    (ha : ∀ i, (X i).head (hne i) = α) (hb : ∀ i, (X i).getLast (hne i) = β)
+    (hmesh : Filter.Tendsto (fun i => mesh (X i)) l (nhds 0)) :
+    Filter.Tendsto (fun i => pairSum (fun u v => (Z v - Z u) * m u v) (X i)) l
+      (nhds (∫ s in α..β, F s * ζ s)) := by
+  obtain ⟨L0, hL0⟩ := isCompact_Icc.exists_bound_of_continuousOn hζ
+  rw [Metric.tendsto_nhds]
+  intro ε hε
+  set L := |L0| + 1 with hLdef
+  set D := |β - α| + 1 with hDdef
+  have hLpos : 0 < L := by positivity
+  have hDpos : 0 < D := by positivity
+  have hL : ∀ s ∈ Set.Icc a b, |ζ s| ≤ L := fun s hs => by
+    have := hL0 s hs; rw [Real.norm_eq_abs] at this
+    linarith [le_abs_self L0]
+  obtain ⟨δ, hδ, hδm⟩ := hm (ε / (2 * L * D)) (by positivity)
+  filter_upwards [(tendsto_order.1 hmesh).2 δ hδ] with i hi
+  have key := pairSum_err_le (convex_Icc a b) (t := fun u v => (Z v - Z u) * m u v)
+    (φ := fun s => F s * ζ s) (hF.mul hζ) (ε := ε / (2 * L * D) * L) (δ := δ)
+    (fun u hu v hv huv => rs_seg_le (convex_Icc a b) hF hζ hL hZ hu hv (hδm u hu v hv huv))
+    (X i) (hne i) (hmem i) hi.le
+  rw [ha i, hb i] at key
+  have hpl : pathLen (X i) ≤ D := by
+    rcases hmono i with h | h
+    · rw [pathLen_of_increasing _ (hne i) h, ha i, hb i]; linarith [le_abs_self (β - α)]
+    · rw [pathLen_of_decreasing _ (hne i) h, ha i, hb i]
+      linarith [neg_le_abs (β - α)]
+  rw [Real.dist_eq]
+  have h1 : ε / (2 * L * D) * L * pathLen (X i) ≤ ε / (2 * L * D) * L * D :=
+    mul_le_mul_of_nonneg_left hpl (by positivity)
+  have h2 : ε / (2 * L * D) * L * D = ε / 2 := by field_simp
+  linarith
+
+/-! ### the array functions on sampled profiles as two-point sums -/
+
+theorem trapz_map_eq_pairSum (Z Y : ℝ → ℝ) : ∀ p : List ℝ,
+    trapz (p.map Z) (p.map Y) = pairSum (fun u v => (Z v - Z u) * ((Y u + Y v) / 2)) p := by
+  intro p
+  induction p with
+  | nil => simp
+  | cons a l ih =>
+    rcases l with _ | ⟨b, l'⟩
+    · simp
+    · simp only [List.map_cons, trapz_cons_cons, pairSum_cons_cons] at ih ⊢
+      rw [ih]; ring
+
+theorem trapz_self_map_eq_pairSum (Y : ℝ → ℝ) (p : List ℝ) :
+    trapz p (p.map Y) = pairSum (fun u v => (v - u) * ((Y u + Y v) / 2)) p := by
+  have := trapz_map_eq_pairSum id Y p
+  simpa using this
+
+theorem zip_map_right (Tf : ℝ → ℝ) : ∀ p : List ℝ,
+    List.zip p (p.map Tf) = p.map (fun s => (s, Tf s))
+  | [] => by simp
+  | a :: l => by simp [zip_map_right Tf l]
+
+/-- the integrand `vmr·ρ_v(p, T)` of the general IWV form for sampled profiles -/
+theorem zipWith_sampled_profile (rhoV : ℝ → ℝ → ℝ) (X Tf : ℝ → ℝ) (p : List ℝ) :
+    List.zipWith (fun v (pt : ℝ × ℝ) => v * rhoV pt.1 pt.2) (p.map X) (List.zip p (p.map Tf))
+      = p.map (fun s => X s * rhoV s (Tf s)) := by
+  rw [zip_map_right]
+  induction p with
+  | nil => simp
+  | cons a l ih => simp [ih]
+
+theorem p2hAux_getLast_eq_pairSum (rho : ℝ → ℝ → ℝ) (g : ℝ) (Tf : ℝ → ℝ) :
+    ∀ (p : List ℝ) (acc : ℝ),
+    (acc :: p2hAux rho g acc (p.map fun s => (s, Tf s))).getLast (by simp)
+      = acc + pairSum (fun u v => (v - u) * (-1 / ((rho u (Tf u) + rho v (Tf v)) / 2 * g))) p := by
+  intro p
+  induction p with
+  | nil => intro acc; simp [p2hAux]
+  | cons a l ih =>
+    intro acc
+    rcases l with _ | ⟨b, l'⟩
+    · simp [p2hAux]
+    · have IH := ih (acc + -(b - a) / ((rho a (Tf a) + rho b (Tf b)) / 2 * g))
+      simp only [List.map_cons, p2hAux, List.getLast_cons_cons, pairSum_cons_cons] at IH ⊢
+      rw [IH]; ring
+
+/-- top height of `pressure2height` on a sampled temperature profile as a two-point sum -/
+theorem p2h_getLast_eq_pairSum (rho : ℝ → ℝ → ℝ) (g : ℝ) (Tf : ℝ → ℝ) (p : List ℝ) :
+    (p2h rho g p (p.map Tf)).getLast (p2h_ne_nil _ _ _ _)
+      = pairSum (fun u v => (v - u) * (-1 / ((rho u (Tf u) + rho v (Tf v)) / 2 * g))) p := by
+  have := p2hAux_getLast_eq_pairSum rho g Tf p 0
+  simp only [p2h, zip_map_right]
+  rw [this]; ring
 
 end Col
